@@ -96,6 +96,7 @@ class Para:
     events: list
     ppr: dict
     kind: str = "para"
+    ctbl: int = 0  # number of \colortbl destinations completed before this block (0 = none in force)
 
     @property
     def text(self) -> str:
@@ -123,6 +124,7 @@ class Row:
     ncellx: int = 0
     ncell: int = 0
     kind: str = "row"
+    ctbl: int = 0
 
     @property
     def cellx(self):
@@ -141,6 +143,7 @@ class Picture:
     ppr: dict
     hex_ok: bool = True
     kind: str = "pict"
+    ctbl: int = 0
 
 
 @dataclass
@@ -162,6 +165,10 @@ class Doc:
     ansicpg: int | None
     charset: str | None
     doc_words: list
+    # additive (C17): every colour table of the stream in order, and where the \colortbl / \header /
+    # \footer destinations occurred: (name, page index, body blocks already on that page, byte offset)
+    colortbls: list = field(default_factory=list)
+    dests: list = field(default_factory=list)
 
     def rows(self):
         return [b for pg in self.pages for b in pg.blocks if b.kind == "row"]
@@ -235,6 +242,8 @@ def parse(data, strict_tail: bool = True) -> Doc:
     fonttbl: dict = {}
     colortbl = None
     colortbl_count = 0
+    colortbls: list = []  # every colour table seen, in stream order
+    dests: list = []  # (name, page index, body blocks on that page so far, offset)
     doc_words: list = []
     ansicpg = None
     charset = None
@@ -288,7 +297,7 @@ def parse(data, strict_tail: bool = True) -> Doc:
         nonlocal events
         if implicit and not events:
             return
-        sink.append(Para(events, dict(pp)))
+        sink.append(Para(events, dict(pp), ctbl=len(colortbls)))
         events = []
 
     i, n = 0, len(toks)
@@ -355,13 +364,14 @@ def parse(data, strict_tail: bool = True) -> Doc:
                         payload = b""
                     else:
                         payload = bytes.fromhex(hx.decode("ascii"))
-                    prev_sink.append(Picture(pict["blip"], pict["props"], payload, dict(pp), ok))
+                    prev_sink.append(Picture(pict["blip"], pict["props"], payload, dict(pp), ok, ctbl=len(colortbls)))
                     pict = None
                 elif dest == "colortbl":
                     if any(v is not None for v in color_cur):
                         errors.append(("colortbl-unterminated-entry", off, ""))
                     colortbl = color_entries
                     colortbl_count += 1
+                    colortbls.append(color_entries)
                 elif dest == "fldinst":
                     events.append(("field", "".join(fld_text).strip()))
                     fld_text = []
@@ -449,6 +459,7 @@ def parse(data, strict_tail: bool = True) -> Doc:
                 if a == "colortbl":
                     color_entries = []
                     color_cur = [None, None, None]
+                    dests.append(("colortbl", len(pages) - 1, len(pages[-1].blocks), off))
                 elif a == "pict":
                     pict = {"blip": None, "props": {}, "hex": b""}
                 elif a == "fldinst":
@@ -459,6 +470,7 @@ def parse(data, strict_tail: bool = True) -> Doc:
                 dest_depth = depth
                 tgt: list = []
                 (headers if dest == "header" else footers).append(tgt)
+                dests.append((dest, len(pages) - 1, len(pages[-1].blocks), off))
                 saved_events[depth] = events
                 events = []
                 sink = tgt
@@ -614,7 +626,7 @@ def parse(data, strict_tail: bool = True) -> Doc:
                         c.vertal = d["vertal"]
                         c.extra = d["extra"]
                     cells.append(c)
-                sink.append(Row(cells, dict(trpr), ncx, nc))
+                sink.append(Row(cells, dict(trpr), ncx, nc, ctbl=len(colortbls)))
                 in_rowdef = False
                 row_cells = []
                 celldefs = []
@@ -658,9 +670,10 @@ def parse(data, strict_tail: bool = True) -> Doc:
         errors.append(("row-not-terminated", len(data), ""))
     if events:
         # implicit last paragraph (text after the last \par)
-        pages[-1].blocks.append(Para(events, dict(pp)))
+        pages[-1].blocks.append(Para(events, dict(pp), ctbl=len(colortbls)))
     fonttbl = {k: (v[:-1] if v.endswith(";") else v) for k, v in fonttbl.items()}
-    return Doc(pages, fonttbl, colortbl, colortbl_count, headers, footers, errors, ansicpg, charset, doc_words)
+    return Doc(pages, fonttbl, colortbl, colortbl_count, headers, footers, errors, ansicpg, charset, doc_words,
+               colortbls=colortbls, dests=dests)
 
 
 def parse_file(path) -> Doc:
